@@ -416,3 +416,290 @@ def c13(tier, replay_file=None):
     except ToolError as e:
         res.tool_errors.append(str(e))
     return res.finish()
+
+
+# ------------------------------------------------------------------ C15
+
+def c15(tier, replay_file=None):
+    prop = "C15"
+    res = Result(prop, tier, "translation_validation")
+    try:
+        exe = build_harness()
+        wd = workdir("%s-%s" % (prop, "replay" if replay_file else tier))
+        cpath = os.path.join(wd, "cases.ndjson")
+        if replay_file:
+            cases = [json.load(open(replay_file))["case"]]
+        else:
+            t0 = time.time()
+            gpath, g = generate(wd, "SaveGen", {"Size": 1 if tier == "quick" else 2}, out="gen.ndjson", timeout=3600, mem="8g")
+            if g.printed("SPEC-ROUNDTRIP-FAILS"):
+                res.notes.append("design-level: Expand(SavedAsProgram(L)) # L for %d layouts, e.g. %s" % (len(g.printed("SPEC-ROUNDTRIP-FAILS")), g.printed("SPEC-ROUNDTRIP-FAILS")[0][:300]))
+            cases = [{"id": "basic-%d" % c["id"], "layout": c["layout"]} for c in read_ndjson(gpath)]
+            nbasic = len(cases)
+            # one layout per key code the tool knows: every key name it can write must read back as the same key
+            keys = [json.loads(l) for l in run_tmv(exe, ["keys"]).splitlines() if l.strip()]
+            for k in keys:
+                cases.append({"id": "key-%s" % k["name"], "layout": [{"from": [k["name"]], "to": [k["name"]], "repeat": {"kind": "Special", "keys": [k["name"]], "delay": 1, "interval": 1}, "absorbing": []},
+                                                                    {"from": ["A", k["name"]] if k["name"] != "A" else ["B", "A"], "to": [], "repeat": {"kind": "Normal"}, "absorbing": ["A" if k["name"] != "A" else "B"]}]})
+            # every converted layout of the C13 family, the built-ins and the README examples: what the converter really produces
+            fpath, g2 = generate(wd, "FancyGen", {"Size": 1 if tier == "quick" else 2}, out="fancy.ndjson", timeout=3600, mem="12g")
+            nf = 0
+            with open(fpath) as f:
+                for l in f:
+                    if l.strip():
+                        c = json.loads(l)
+                        if c["expect"]["ok"]:
+                            cases.append({"id": "prog-%d" % c["id"], "fancy": c["json"]})
+                            nf += 1
+            import families
+            for b in [json.loads(l) for l in run_tmv(exe, ["builtins"]).splitlines() if l.strip()]:
+                cases.append({"id": "builtin-" + b["name"], "fancy": b["json"]})
+            for i, v in enumerate(families.readme_layouts()):
+                cases.append({"id": "readme-%d" % i, "fancy": v})
+            log("[gen] %d bounded basic layouts (TLC), %d key layouts, %d converted programs, in %.1fs" % (nbasic, len(keys), nf, time.time() - t0))
+        write_ndjson(cpath, cases)
+        rpath = os.path.join(wd, "results.ndjson")
+        t0 = time.time()
+        run_tmv(exe, ["roundtrip", cpath], stdout_path=rpath)
+        log("[record] save + reload of %d layouts through the real code, %.1fs" % (len(cases), time.time() - t0))
+        files, n = split_file(rpath, PROCS, wd, "res")
+        judged, nontriv, bad, kn, _ = judge(res, wd, "SaveCheck", files, known_ids(prop))
+        case_by_id = {c["id"]: c for c in cases}
+        results = read_ndjson(rpath) if (bad or replay_file) else []
+        result_by_id = {r["id"]: r for r in results}
+        if replay_file:
+            if res.tool_errors:
+                log("TOOL-ERROR: " + res.tool_errors[0])
+                return 2
+            log("  saved:    " + json.dumps(results[0]["orig"])[:1200])
+            log("  reloaded: " + json.dumps({k: results[0][k] for k in ("o", "msg", "mappings")})[:1200])
+            if bad:
+                log("VIOLATION property=C15 replay=%s clause=%s" % (replay_file, ",".join(bad[0][1])))
+                return 1
+            log("replay: C15 holds for this layout with the current tree")
+            return 0
+        report(res, bad, kn, case_by_id, result_by_id, "E3-save-reload")
+        if judged != len(cases) and not res.tool_errors:
+            res.tool_errors.append("judged %d of %d cases" % (judged, len(cases)))
+        res.coverage = {
+            "programs": judged, "disagreements_checked": judged,
+            "samples": [cases[0] if len(cases) < 3 else cases[2], cases[nbasic + 3], cases[-1]],
+            "bounded_basic_layouts": nbasic, "key_codes": len(keys), "converted_programs": nf, "nontrivial_layouts": nontriv,
+            "rule": "every basic layout of SaveGen.tla's bounded family (0-%d mappings; triggers of 1-4 keys; outputs of 0-3 keys; Normal/Disabled/Special with chords of 0-2 keys and extreme "
+                    "and negative numbers; absorbing lists), one two-mapping layout per key code the tool knows (the key as trigger, output, chord key and modifier), and every "
+                    "layout the real converter produces for the accepted programs of the C13 family, the built-ins and the README examples; each is serialised as "
+                    "write_layout_to_global_config does (serde_json::to_writer_pretty of the Layout) and read back with load_layout_from_file; TLC compares." % (2 if tier == "quick" else 3),
+            "exhaustive": True,
+        }
+        res.assumptions = ["the save path is serde_json::to_writer_pretty on the Layout value, as in write_layout_to_global_config (which writes to a fixed path under /etc and is not called)"]
+        if not res.violations and not res.tool_errors and nontriv < 100:
+            res.tool_errors.append("vacuous run: only %d non-trivial layouts" % nontriv)
+    except ToolError as e:
+        res.tool_errors.append(str(e))
+    return res.finish()
+
+
+# ------------------------------------------------------------------ C14
+
+MUT_VALUES = [None, True, 0, -1, 1.5, 1e99, 2147483648, -2147483649, 4294967297, "", "A", "a", "@x", "@s", "NOSUCHKEY", "LEFTSHIFT", "1", "K1",
+              [], ["A", "A"], ["LEFTSHIFT", "LEFTSHIFT", "A"], ["@s", "@s", "A"], [["A"]], {}, {"row": "A"}, {"row": "NOPE"}, {"row": 1}, {"letters": "ab"},
+              {"letters": "é"}, {"letters": "abcdefghijklmnopqrstuvwxyz"}, {"letters": 5}, {"Special": {}}, {"Special": {"keys": "A", "delay_ms": "x", "interval_ms": 1}},
+              {"Special": {"keys": ["LEFTSHIFT", "LEFTSHIFT"], "delay_ms": -5, "interval_ms": 0}}, "Disabled", "x" * 300]
+
+
+def json_paths(v, cur=()):
+    out = [cur]
+    if isinstance(v, dict):
+        for k in v:
+            out += json_paths(v[k], cur + (k,))
+    elif isinstance(v, list):
+        for i, x in enumerate(v):
+            out += json_paths(x, cur + (i,))
+    return out
+
+
+def with_at(v, path, f):
+    """deep copy of v with f applied to the container and key at path (f(container, key))"""
+    import copy
+    w = copy.deepcopy(v)
+    if not path:
+        return f(None, None, w)
+    c = w
+    for k in path[:-1]:
+        c = c[k]
+    f(c, path[-1], w)
+    return w
+
+
+def mutations(prog):
+    """Structure-aware mutations of a valid program at every JSON path (data generation only)."""
+    out = []
+    for path in json_paths(prog):
+        if not path:
+            for val in MUT_VALUES[:12]:
+                out.append(val)
+            continue
+        for val in MUT_VALUES:
+            def rep(c, k, w, val=val):
+                c[k] = val
+            out.append(with_at(prog, path, rep))
+
+        def dele(c, k, w):
+            del c[k]
+        out.append(with_at(prog, path, dele))
+
+        def dup(c, k, w):
+            if isinstance(c, list):
+                c.insert(k, c[k])
+            else:
+                c[str(k) + "_extra"] = c[k]
+        out.append(with_at(prog, path, dup))
+    return out
+
+
+def c14(tier, replay_file=None):
+    import e1, families
+    prop = "C14"
+    res = Result(prop, tier, "exploration")
+    try:
+        exe = build_harness()
+        wd = workdir("%s-%s" % (prop, "replay" if replay_file else tier))
+        if replay_file:
+            rp = json.load(open(replay_file))
+            if rp.get("engine") == "E1-mapper-table":
+                src = (rp.get("job") or {}).get("source_input_the_loader_accepted")
+                if src:
+                    # end to end: does the loader still accept the input, and if so what does the mapper do with the result
+                    cpath = os.path.join(wd, "cases.ndjson")
+                    write_ndjson(cpath, [src])
+                    out = run_tmv(exe, ["loadtext" if src.get("kind") == "text" else "load", cpath])
+                    r = json.loads(out.splitlines()[0])
+                    r = r.get("r1", r)
+                    log("  loader outcome: %s %s" % (r["o"], r["msg"][:300]))
+                    if r["o"] == "panic":
+                        log("VIOLATION property=C14 replay=%s clause=C14-loader-panic" % replay_file)
+                        return 1
+                    if r["o"] == "err":
+                        log("replay: the loader rejects this input with a message; nothing reaches the mapper")
+                        return 0
+                    rp["job"]["layout"] = r["mappings"]
+                    rp["layout"] = r["mappings"]
+                    tmp = os.path.join(wd, "replay.json")
+                    json.dump(rp, open(tmp, "w"))
+                    return e1.replay(prop, tmp)
+                return e1.replay(prop, replay_file)
+            kind = rp["case"].get("kind", "value")
+            cpath = os.path.join(wd, "cases.ndjson")
+            write_ndjson(cpath, [rp["case"]])
+            rpath = os.path.join(wd, "results.ndjson")
+            run_tmv(exe, ["loadtext" if kind == "text" else "load", cpath], stdout_path=rpath)
+            judged, nontriv, bad, kn, _ = judge(res, wd, "LoadCheck", [rpath], known_ids(prop))
+            if res.tool_errors:
+                log("TOOL-ERROR: " + res.tool_errors[0])
+                return 2
+            log("  outcome: " + open(rpath).read()[:800])
+            if bad:
+                log("VIOLATION property=C14 replay=%s clause=%s" % (replay_file, ",".join(bad[0][1])))
+                return 1
+            log("replay: the loader does not panic on this input with the current tree")
+            return 0
+        t0 = time.time()
+        fpath, g = generate(wd, "FancyGen", {"Size": 1}, out="fancy.ndjson", timeout=3600, mem="12g")
+        progs = []
+        with open(fpath) as f:
+            for l in f:
+                if l.strip():
+                    c = json.loads(l)
+                    progs.append(c)
+        rng = det_rng("c14", 0 if tier == "quick" else seed())
+        # seeds for mutation: a deterministic spread over the generated family + built-ins + README
+        nseed = 60 if tier == "quick" else 500
+        step = max(1, len(progs) // nseed)
+        seeds = [p["json"] if i % 2 == 0 else p["json2"] for i, p in enumerate(progs[::step][:nseed])]
+        seeds += [json.loads(l)["json"] for l in run_tmv(exe, ["builtins"]).splitlines() if l.strip() and "super-dvorak" not in l]
+        seeds += families.readme_layouts()
+        vcases = []
+        for p in progs:
+            vcases.append({"id": len(vcases) + 1, "kind": "value", "json": p["json"], "json2": p["json2"]})
+        nvalid = len(vcases)
+        for s in seeds:
+            for m in mutations(s):
+                vcases.append({"id": len(vcases) + 1, "kind": "value", "json": m})
+        cpath = os.path.join(wd, "vcases.ndjson")
+        write_ndjson(cpath, vcases)
+        # texts: every prefix of some rendered texts (truncated files), and a few non-JSON byte strings
+        tcases = []
+        for s in seeds[:20 if tier == "quick" else 120]:
+            text = json.dumps(s, indent=1)
+            for n in range(len(text)):
+                tcases.append({"id": "t%d" % (len(tcases) + 1), "kind": "text", "text": text[:n]})
+        for b in ([], [0], [255, 254], [123], [123, 125], list(b'{"mappings":'), list(b'{"mappings":[{"from":"A","to":"B"}]}\x00'), list(b'\xef\xbb\xbf{"mappings":[]}'),
+                  list(b'{"mappings":[]}{"mappings":[]}'), list(b'[' * 200), list(b'{"mappings":[{"from":"\\ud800","to":"B"}]}')):
+            tcases.append({"id": "t%d" % (len(tcases) + 1), "kind": "text", "bytes": b})
+        tpath = os.path.join(wd, "tcases.ndjson")
+        write_ndjson(tpath, tcases)
+        log("[gen] %d valid programs, %d mutated values from %d seeds, %d texts, %.1fs" % (nvalid, len(vcases) - nvalid, len(seeds), len(tcases), time.time() - t0))
+        t0 = time.time()
+        vres, tres = os.path.join(wd, "vres.ndjson"), os.path.join(wd, "tres.ndjson")
+        run_tmv(exe, ["load", cpath], stdout_path=vres)
+        run_tmv(exe, ["loadtext", tpath], stdout_path=tres)
+        log("[record] real loader on %d values and %d texts, %.1fs" % (len(vcases), len(tcases), time.time() - t0))
+        # the judge only needs the outcomes; accepted mapping lists are collected for the mapper run
+        accepted = {}
+        slim = os.path.join(wd, "outcomes.ndjson")
+        nres = 0
+        with open(slim, "w") as g2:
+            for path in (vres, tres):
+                with open(path) as f:
+                    for l in f:
+                        if not l.strip():
+                            continue
+                        r = json.loads(l)
+                        nres += 1
+                        rs = [r[k] for k in ("r1", "r2") if k in r] or [r]
+                        g2.write(json.dumps({"id": r["id"], "os": [x["o"] for x in rs]}) + "\n")
+                        for x in rs:
+                            if x["o"] == "ok":
+                                accepted.setdefault(json.dumps(x["mappings"], sort_keys=True), r["id"])
+        files, n = split_file(slim, PROCS, wd, "out")
+        judged, nontriv, bad, kn, extra = judge(res, wd, "LoadCheck2", files, known_ids(prop))
+        case_by_id = {c["id"]: c for c in vcases}
+        case_by_id.update({c["id"]: c for c in tcases})
+        report(res, bad, kn, case_by_id, {}, "E3-loader")
+        if judged != nres and not res.tool_errors:
+            res.tool_errors.append("judged %d of %d results" % (judged, nres))
+        # second half: every distinct accepted layout is installed in the real mapper and driven exhaustively
+        lays = sorted(accepted.items(), key=lambda kv: (len(kv[0]), kv[0]))
+        maxl = 400 if tier == "quick" else 6000
+        # prefer small layouts (cheap, and the mutated ones) but keep the spread
+        pickd = lays[:maxl * 3 // 4] + lays[maxl * 3 // 4::max(1, (len(lays) - maxl * 3 // 4) // (maxl // 4) or 1)][:maxl // 4]
+        jobs = []
+        for txt, cid in pickd:
+            lay = json.loads(txt)
+            ks = []
+            for m in lay:
+                for k in m["from"] + m["to"]:
+                    if k not in ks:
+                        ks.append(k)
+                if len(ks) >= 5:
+                    break
+            ks = ks[:5] + [k for k in ("F5",) if k not in ks[:5]]
+            jobs.append({"id": "acc-%s" % cid, "layout": lay, "keys": ks, "maxheld": 3, "source_input_the_loader_accepted": case_by_id.get(cid)})
+        stats, shards = e1.tabulate(exe, wd, jobs, PROCS)
+        gen, dist, counters = e1.run_model(res, wd, shards, ["C14", "RA"], known_ids(prop), [], prop, timeout=1500 if tier == "quick" else 7200)
+        res.coverage = {
+            "evaluations": judged + stats["layouts"], "distinct_nontrivial": nontriv,
+            "rule": "loader: every program of the C13 family in two spellings; structure-aware mutations (%d replacement values, deletion, duplication/extra field) at every JSON path of %d seed "
+                    "programs (family members, built-ins, README examples); every prefix of %d pretty-printed texts and a few non-JSON byte strings, through load_layout_from_file. "
+                    "Non-trivial = inputs the loader accepted. Mapper: %d distinct accepted layouts (of %d) installed in the real mapper and driven with every event sequence over "
+                    "their first keys + a foreign key, <= 3 keys held (states/transitions below); a panic anywhere is recorded under catch_unwind and judged by TLC."
+                    % (len(MUT_VALUES), len(seeds), 20 if tier == "quick" else 120, len(jobs), len(lays)),
+            "samples": [vcases[nvalid + 5]["json"], vcases[len(vcases) // 2]["json"], tcases[len(tcases) // 2].get("text", "")[-200:]],
+            "loader_inputs": judged, "loader_accepted": nontriv, "distinct_accepted_layouts": len(lays), "layouts_driven": stats["layouts"],
+            "mapper_states": dist, "mapper_transitions": gen, "mapper_panics_recorded": stats["panics"], "exhaustive": False,
+        }
+        res.assumptions = ["arbitrary byte strings are not enumerated: bytes that are not JSON never reach repository code (serde_json rejects them)",
+                           "accepted layouts are driven over a 6-key sub-alphabet with <= 3 keys held"]
+    except ToolError as e:
+        res.tool_errors.append(str(e))
+    return res.finish()
